@@ -158,7 +158,7 @@ PROPS = {
         "evaluations": ["children.cases", "ancestor.pairs", "errors.calls", "sizeonly.cases"],
         "rule": "cases: (cell, childRes) child lists, (cell -> every ancestor) membership chains, (cell, hostile resolution) error codes. Non-trivial = child list with >1 child, or a chain "
                 "from a cell of res>0; distinct by hash of (cell, childRes).",
-        "require": {"children.cases": 5000, "children.cells": 1000000, "ancestor.pairs": 10000, "errors.rejected": 1000, "sizeonly.cases": 3000},
+        "require": {"children.cases": 5000, "children.cells": 1000000, "ancestor.pairs": 10000, "errors.rejected": 1000, "sizeonly.cases": 3000, "children.families_eight_levels_deep": 2},
         "assumptions": ["reference enumerator equals the documented digit layout"],
     },
     "C05": {
